@@ -38,7 +38,9 @@ def build_qkeras(kind, mvk, w, pfx, alpha=None):
     return q.quantized_relu(int(w[pfx + "_bits"]), int(w[pfx + "_int"]))
   if kind in ("po2", "relu_po2"):
     mv = None
-    if mvk not in (None, "none"):
+    if mvk not in (None, "none") and str(mvk).startswith("v"):
+      mv = float(str(mvk)[1:].replace("p", "."))          # concrete non-power-of-two max_value
+    elif mvk not in (None, "none"):
       mv = float(Fraction(2) ** int(w[pfx + "_mvexp"]))
     cls = q.quantized_po2 if kind == "po2" else q.quantized_relu_po2
     return cls(int(w[pfx + "_bits"]), mv)
